@@ -10,6 +10,10 @@
 using namespace bpp;
 using namespace std;
 
+// A textual description is short, the vector it describes need not be ("1-2000000000",
+// "seq(from=0,to=1e18,step=1)", "size=2147483647"): nothing larger than this is built from a text.
+static const size_t MAX_DESCRIBED_SIZE = 10000000;
+
 vector<int> NumCalcApplicationTools::seqFromString(const std::string& s, const std::string& delim, const std::string& seqdelim)
 {
   vector<int> seq;
@@ -20,11 +24,19 @@ vector<int> NumCalcApplicationTools::seqFromString(const std::string& s, const s
 
     if (st2->numberOfRemainingTokens() > 1)
     {
-      vector<int> tmp = VectorTools::seq(TextTools::toInt(st2->getToken(0)), TextTools::toInt(st2->getToken(1)), 1);
+      const int from = TextTools::toInt(st2->getToken(0));
+      const int to = TextTools::toInt(st2->getToken(1));
+      // The length of the range, computed where it cannot overflow.
+      const long long length = (from < to ? static_cast<long long>(to) - from : static_cast<long long>(from) - to) + 1;
+      if (length > static_cast<long long>(MAX_DESCRIBED_SIZE - seq.size()))
+        throw Exception("NumCalcApplicationTools::seqFromString. Sequence of more than " + TextTools::toString(MAX_DESCRIBED_SIZE) + " values: " + s);
+      vector<int> tmp = VectorTools::seq(from, to, 1);
       VectorTools::append(seq, tmp);
     }
     else
     {
+      if (seq.size() >= MAX_DESCRIBED_SIZE)
+        throw Exception("NumCalcApplicationTools::seqFromString. Sequence of more than " + TextTools::toString(MAX_DESCRIBED_SIZE) + " values: " + s);
       seq.push_back(TextTools::toInt(st2->getToken(0)));
     }
   }
@@ -83,6 +95,9 @@ vector<double> NumCalcApplicationTools::getVector(const std::string& desc)
         throw Exception("Unvalid sequence specification, 'step' must be positive: " + desc);
       for (double x = start; x <= end + NumConstants::TINY(); x += step)
       {
+        // Also ends the loop when x + step == x (a step below the resolution of x).
+        if (values.size() >= MAX_DESCRIBED_SIZE)
+          throw Exception("NumCalcApplicationTools::getVector. Sequence of more than " + TextTools::toString(MAX_DESCRIBED_SIZE) + " values: " + desc);
         double y;
         switch (scale)
         {
@@ -107,6 +122,8 @@ vector<double> NumCalcApplicationTools::getVector(const std::string& desc)
     else
     {
       int size = TextTools::toInt(keyvals["size"]);
+      if (size > 0 && static_cast<size_t>(size) > MAX_DESCRIBED_SIZE)
+        throw Exception("NumCalcApplicationTools::getVector. Sequence of more than " + TextTools::toString(MAX_DESCRIBED_SIZE) + " values: " + desc);
       double step = (end - start) / (double)size;
       for (int i = 0; i + 1 < size; i++)
       {
